@@ -6,6 +6,7 @@ package main
 import (
 	"context"
 	"fmt"
+	"hash/fnv"
 	"net"
 	"os"
 	"path/filepath"
@@ -170,7 +171,13 @@ func (q *query) wireQuery() *dns.Msg {
 	m := new(dns.Msg)
 	m.Id = 4711
 	m.Question = []dns.Question{{Name: q.name, Qtype: q.qtype, Qclass: q.qclass}}
-	m.RecursionDesired = true
+	// RD and CD vary with the spelling of the name (two spellings of one name share a cache key):
+	// a reply must echo the flags of the query it answers, not those of an earlier one
+	h := fnv.New32a()
+	h.Write([]byte(q.name))
+	// (high bits: a case flip changes bit 5 of a byte, which never reaches the low bits of FNV-1a)
+	m.RecursionDesired = (h.Sum32()>>17)&1 == 0
+	m.CheckingDisabled = (h.Sum32()>>21)&3 == 3
 	m.Opcode = q.opcode
 	if q.opt {
 		o := new(dns.OPT)
@@ -311,10 +318,15 @@ func respCanon(rcode int, herr error, w *recWriter, req *dns.Msg) string {
 	q := "q=same"
 	if len(m.Question) != len(req.Question) || (len(m.Question) == 1 && (!strings.EqualFold(m.Question[0].Name, req.Question[0].Name) || m.Question[0].Qtype != req.Question[0].Qtype || m.Question[0].Qclass != req.Question[0].Qclass)) {
 		q = fmt.Sprintf("q=%d", len(m.Question))
+	} else if len(m.Question) == 1 && m.Question[0].Name != req.Question[0].Name {
+		q = "q=other-case" // the question is echoed as the client wrote it
 	}
 	idok := "id=ok"
 	if m.Id != req.Id || !m.Response {
 		idok = "id=BAD"
+	} else if len(m.Question) == len(req.Question) && len(req.Question) == 1 &&
+		(m.RecursionDesired != req.RecursionDesired || m.CheckingDisabled != req.CheckingDisabled || m.Opcode != req.Opcode) {
+		idok = "id=BAD-FLAGS" // RD, CD and the opcode are those of the query
 	}
 	aa := 0
 	if m.Authoritative {
